@@ -84,3 +84,32 @@ Qed.
 Theorem restarting_overlaps s k k' : 0 < k -> 0 < k' ->
   exists p, In p (reads (fresh s) k) /\ In p (reads (fresh s) k').
 Proof. intros Hk Hk'. exists (s, 0). split; apply reads_In; cbn; lia. Qed.
+
+
+(* ---------------- every consumer reads exactly what it asked for; calls compose ---------------- *)
+Lemma blocks_lengths g ks : map (@List.length position) (fst (blocks g ks)) = ks.
+Proof.
+  revert g. induction ks as [|k t IH]; intros g; cbn [blocks]; [reflexivity|].
+  unfold draw. specialize (IH (advance g k)). destruct (blocks (advance g k) t) as [bs g''].
+  cbn [fst map] in *. now rewrite reads_length, IH.
+Qed.
+Lemma blocks_app g ks ks' :
+  blocks g (ks ++ ks') =
+    (fst (blocks g ks) ++ fst (blocks (snd (blocks g ks)) ks'), snd (blocks (snd (blocks g ks)) ks')).
+Proof.
+  revert g. induction ks as [|k t IH]; intros g; cbn [app blocks].
+  - cbn [fst snd app]. now destruct (blocks g ks').
+  - unfold draw. rewrite (IH (advance g k)). destruct (blocks (advance g k) t) as [bs g''].
+    cbn [fst snd app]. reflexivity.
+Qed.
+(* streams of different integer seeds never share a position *)
+Lemma distinct_seeds_disjoint s s' ks ks' p : s <> s' ->
+  In p (concat (fst (shared_plan (IntSeed s) ks))) -> ~ In p (concat (fst (shared_plan (IntSeed s') ks'))).
+Proof.
+  intros Hne H H'.
+  assert (Hs : forall g l q, In q (concat (fst (blocks g l))) -> fst q = g_seed g).
+  { intros g l. revert g. induction l as [|k t IH]; intros g q; cbn [blocks]; [intros []|].
+    unfold draw. specialize (IH (advance g k) q). destruct (blocks (advance g k) t) as [bs g''].
+    cbn [fst concat] in *. rewrite in_app_iff. intros [Hq|Hq]; [now apply reads_In in Hq|]. now apply IH in Hq. }
+  apply Hs in H. apply Hs in H'. cbn in H, H'. congruence.
+Qed.
